@@ -2,11 +2,13 @@ package main
 
 import (
 	"bufio"
+	"bytes"
 	"encoding/json"
 	"fmt"
 	"hash/adler32"
 	"hash/crc32"
 	"hash/fnv"
+	"io"
 	"math/rand"
 	"os"
 	"strconv"
@@ -166,4 +168,18 @@ func collidingNames() [][2]string {
 		}
 	}
 	return collidingOnce
+}
+
+// failedWriteFirst: the record is first written to a writer that fails part-way (and once to a writer that takes nothing), the results
+// thrown away: a failed Write must leave nothing behind that a later Write or MarshalText could pick up.
+func failedWriteFirst(write func(w io.Writer) error) {
+	catch(func() {
+		full := &bytes.Buffer{}
+		if write(full) != nil {
+			return
+		}
+		write(&limitWriter{left: full.Len() / 2})
+		write(&limitWriter{left: 0})
+		write(&limitWriter{left: max(full.Len()-1, 0)})
+	})
 }
